@@ -47,6 +47,22 @@ class Obj:
         return sym(self.name)
 
 
+class Atom(Obj):
+    """Abstract record with *concrete identity* (an element of a small finite model chosen by the rule, e.g. one
+    orbital index): two Atoms are equal iff they are the same object, so ``==`` / ``is`` / ``in`` against concrete
+    values and containers are decided by the evaluator instead of becoming symbolic comparisons of record names.
+    The hash is the creation serial, which keeps set/dict iteration order deterministic."""
+    _serial = 0
+
+    def __init__(self, cls=None, name=None, **attrs):
+        super().__init__(cls, name, **attrs)
+        Atom._serial += 1
+        self.__dict__["serial"] = Atom._serial
+
+    def __hash__(self):
+        return self.__dict__["serial"]
+
+
 class Func:
     def __init__(self, node, frames, module, qual=None, bound=None):
         self.node, self.frames, self.module, self.qual, self.bound = node, frames, module, qual, bound
@@ -506,6 +522,8 @@ class Symex:
                     self.unsupported(t, "starred unpacking of a term")
                 vs = [T("item", v, i) for i in range(len(t.elts))]
             else:
+                if v is None:
+                    raise Raised("TypeError", "cannot unpack None", t)
                 try:
                     vs = list(v)
                 except TypeError:
@@ -664,7 +682,28 @@ class Symex:
         except Exception:
             self.unsupported(node, f"arithmetic on {type(a).__name__}, {type(b).__name__}")
 
+    def _atom_compare(self, opname, a, b, node):
+        """Comparisons that involve an ``Atom`` and no symbolic term are decided by identity."""
+        if isinstance(a, T) or isinstance(b, T):
+            return NotImplemented
+        if opname in ("in", "not in"):
+            if not isinstance(a, Atom):
+                return NotImplemented
+            if isinstance(b, str):
+                raise Raised("TypeError", None, node)
+            if not isinstance(b, (dict, list, tuple, set, frozenset)) or any(isinstance(e, T) for e in b):
+                return NotImplemented
+            r = any(e is a for e in b)
+            return r if opname == "in" else not r
+        if opname in ("==", "!=", "is", "is not"):
+            return (a is b) if opname in ("==", "is") else (a is not b)
+        return NotImplemented
+
     def compare(self, opname, a, b, node):
+        if isinstance(a, Atom) or isinstance(b, Atom):
+            r = self._atom_compare(opname, a, b, node)
+            if r is not NotImplemented:
+                return r
         if isinstance(a, Ext):
             a = sym(a.name)
         if isinstance(b, Ext):
@@ -1227,7 +1266,9 @@ class Symex:
                     a = [f.bound] + a
                 frame = self.bind(fn, a, kw)
             self.frames, self.module = list(f.frames) + [frame], f.module
-            is_gen = any(isinstance(x, (ast.Yield, ast.YieldFrom)) for x in _walk_noscope(fn))
+            is_gen = getattr(fn, "_sx_is_gen", None)
+            if is_gen is None:      # cached on the node: the walk dominates when a function is evaluated many times
+                is_gen = fn._sx_is_gen = any(isinstance(x, (ast.Yield, ast.YieldFrom)) for x in _walk_noscope(fn))
             try:
                 self.block(fn.body)
                 r = None
